@@ -85,6 +85,13 @@ def workdir():
                            ('base2.xml', SCHEMA_BASE2), ('base3.xml', SCHEMA_BASE3),
                            ('types.xml', SCHEMA_TYPES)):
             open(os.path.join(d, name), 'w').write(text)
+        # two components defining the same type name; the first one is invalid further down (it re-declares
+        # a type of the application schema), so importing it fails after its first type was read
+        for pk, body in (('vfc19b1', '<sectiontype name="tq"/><sectiontype name="ta"/>'),
+                         ('vfc19b2', '<sectiontype name="tq"><key name="kq"/></sectiontype>')):
+            os.makedirs(os.path.join(d, pk))
+            open(os.path.join(d, pk, '__init__.py'), 'w').write('')
+            open(os.path.join(d, pk, 'component.xml'), 'w').write('<component>%s</component>' % body)
         for pk, init in (('vfc19pk', True), ('vfc19ns', False)):
             os.makedirs(os.path.join(d, pk))
             if init:
@@ -245,7 +252,7 @@ class C19(Harness):
 
     def units(self, tier):
         us = []
-        for scen in ('schema', 'c1', 'c2', 'c1-file', 'stringio', 'schema-twice', 'c3', 'c4', 'c1-twice'):
+        for scen in ('schema', 'c1', 'c2', 'c1-file', 'stringio', 'schema-twice', 'c3', 'c4', 'c1-twice', 'c5-twice'):
             for kind in ('none', 'read', 'open', 'stream', 'datatype', 'section'):
                 us.append({'scenario': scen, 'kind': kind})
         return us
@@ -303,6 +310,25 @@ class C19(Harness):
                             open(b3, 'w').write(SCHEMA_BASE3)
                         raise first
                     twice_schema = sl.loadURL(os.path.join(d, 'schema.xml'))
+                elif scen == 'c5-twice':
+                    # ONE ConfigLoader: a load whose %import fails half-way through the component, then a
+                    # load importing another component that defines the same type name
+                    import ZConfig.loader
+                    schema = ZConfig.loadSchema(os.path.join(d, 'schema.xml'))
+                    cl = ZConfig.loader.ConfigLoader(schema)
+                    first = None
+                    try:
+                        cl.loadFile(io.StringIO('ka 1\n%import vfc19b1\nkb 2\n'), 'file:///m/one.conf')
+                    except (Injected, OSError, ZConfig.ConfigurationError) as e:
+                        first = e
+                    tr.disarm()
+                    try:
+                        cfg2, _ = cl.loadFile(io.StringIO('%import vfc19b2\nkd y\nkc x\n'), 'file:///m/two.conf')
+                        twice_cfg = ('ok', [tuple(x) for x in P.walk(cfg2)[3][:3]])
+                    except Exception as e:
+                        twice_cfg = ('second-load-on-reused-config-loader-failed', type(e).__name__)
+                    if first is not None:
+                        raise first
                 elif scen == 'c1-twice':
                     # ONE ConfigLoader serves two loads of the same URL; when the first fails, an
                     # included resource is edited before the retry, which must see the edit
